@@ -343,6 +343,12 @@ def gls_digit_scalars(rng, L, order, x, n):
     return out
 
 
+def order_edge(order, L):
+    """scalars around the group order that have the full bit length: legal inputs (reduced by the routines), and the
+    place where a 'reduced scalar is zero' shortcut would show"""
+    return [(lab, v) for lab, v in (("order-1", order - 1), ("order", order), ("order+1", order + 1)) if v.bit_length() == L]
+
+
 def scalar_classes(rng, L, hi, n):
     """n scalars of exactly L bits (top bit set), all < hi when hi is given"""
     out = []
@@ -434,7 +440,10 @@ def run_reg(ctx, R, tr):
                     ctx.ok()
                     a, b = ref[3], seq
                     j = next((i for i, (x, y) in enumerate(zip(a, b)) if x != y), min(len(a), len(b)))
-                    ctx.fail("%s|%s|trace-varies%s" % (label, pset, suffix),
+                    # scalars around the group order get a key of their own: what happens there (result O or +-P) must
+                    # not share a key with a variation among ordinary scalars
+                    sfx = suffix + ("|scalar=" + lab if lab.startswith("order") else "")
+                    ctx.fail("%s|%s|trace-varies%s" % (label, pset, sfx),
                              {"reference": {"class": ref[1], "k": hx(ref[2]), "events": len(a)},
                               "this": {"class": lab, "k": hx(v), "events": len(b)},
                               "first_difference_at": j, "ref_around": list(a[max(0, j - 3):j + 4]),
@@ -473,10 +482,18 @@ def run_reg(ctx, R, tr):
         R.call("ep_curve_get_gen", g)
         # a random subgroup point as base
         R.call("ep_mul_gen", g, kbn(rng.randrange(2, n)))
+        gg = R.ep_new()
+        R.call("ep_curve_get_gen", gg)
         for fn in ("ep_mul_monty", "ep_mul_lwreg"):
             unit += 1
             if ctx.mine(unit) and R.has(fn):
-                observe(fn, name, ("ep_mul_",), EPV, fn, lambda v: (r, g, kbn(v)), scalar_classes(rng, L, n, nsc), order=n, L=L)
+                observe(fn, name, ("ep_mul_",), EPV, fn, lambda v: (r, g, kbn(v)), scalar_classes(rng, L, n, nsc) + order_edge(n, L),
+                        order=n, L=L)
+            # the curve generator as base point (a public input: precomputed tables exist for it)
+            unit += 1
+            if ctx.mine(unit) and R.has(fn):
+                observe(fn, name + ",base=G", ("ep_mul_",), EPV, fn, lambda v: (r, gg, kbn(v)),
+                        scalar_classes(rng, L, n, max(10, nsc // 2)) + order_edge(n, L))
         unit += 1
         if ctx.mine(unit):
             observe("ep_mul_lwnaf", name, ("ep_mul_",), EPV, "ep_mul_lwnaf", lambda v: (r, g, kbn(v)),
@@ -493,25 +510,31 @@ def run_reg(ctx, R, tr):
             for fn in ("ep2_mul_monty", "ep2_mul_lwreg"):
                 unit += 1
                 if ctx.mine(unit) and R.has(fn):
-                    observe(fn, name, ("ep2_mul_",), EP2V, fn, lambda v: (r2, q, kbn(v)), scalar_classes(rng, L, n, nsc) + gls, order=n, L=L)
+                    observe(fn, name, ("ep2_mul_",), EP2V, fn, lambda v: (r2, q, kbn(v)), scalar_classes(rng, L, n, nsc) + gls + order_edge(n, L),
+                            order=n, L=L)
             e = R.fpx_new(12)
             o = R.fpx_new(12)
             R.call("gt_get_gen", e)
             unit += 1
             if ctx.mine(unit):
                 observe("gt_exp_sec", name, ("gt_exp",), GTV, "gt_exp_sec", lambda v: (o, e, kbn(v)),
-                        scalar_classes(rng, L, n, nsc) + gls, order=n, L=L)
+                        scalar_classes(rng, L, n, nsc) + gls + order_edge(n, L), order=n, L=L)
             unit += 1
             if ctx.mine(unit):
                 observe("g1_mul_sec", name, ("ep_mul_",), EPV, "g1_mul_sec", lambda v: (r, g, kbn(v)),
-                        scalar_classes(rng, L, n, max(10, nsc // 2)), order=n, L=L)
+                        scalar_classes(rng, L, n, max(10, nsc // 2)) + order_edge(n, L), order=n, L=L)
+            unit += 1
+            if ctx.mine(unit):
+                observe("g1_mul_sec", name + ",base=G", ("ep_mul_",), EPV, "g1_mul_sec", lambda v: (r, gg, kbn(v)),
+                        scalar_classes(rng, L, n, 10) + order_edge(n, L))
             unit += 1
             if ctx.mine(unit):
                 observe("g2_mul_sec", name, ("ep2_mul_",), EP2V, "g2_mul_sec", lambda v: (r2, q, kbn(v)),
-                        scalar_classes(rng, L, n, max(10, nsc // 2)) + gls, order=n, L=L)
+                        scalar_classes(rng, L, n, max(10, nsc // 2)) + gls + order_edge(n, L), order=n, L=L)
             for p_ in (q, r2, e, o):
                 R.free(p_)
         R.free(g)
+        R.free(gg)
         R.free(r)
     # ---- Edwards (255-bit build)
     if R.has("ed_param_set_any") and "sizeof_ed_st" in K:
@@ -528,7 +551,8 @@ def run_reg(ctx, R, tr):
             for fn in ("ed_mul_monty", "ed_mul_lwreg"):
                 unit += 1
                 if ctx.mine(unit) and R.has(fn):
-                    observe(fn, "ED25519", ("ed_mul_",), EDV, fn, lambda v: (r, g, kbn(v)), scalar_classes(rng, L, n, nsc), order=n, L=L)
+                    observe(fn, "ED25519", ("ed_mul_",), EDV, fn, lambda v: (r, g, kbn(v)), scalar_classes(rng, L, n, nsc) + order_edge(n, L),
+                            order=n, L=L)
     # ---- binary curves and fields, integer / field ladders (256-bit build only: the code is the same)
     if ctx.cfg == "trace256":
         for setter, nm in (("eb_param_set_any_plain", "B283"), ("eb_param_set_any_kbltz", "K283")):
@@ -547,7 +571,7 @@ def run_reg(ctx, R, tr):
             unit += 1
             if ctx.mine(unit):
                 observe("eb_mul_lodah", nm, ("eb_mul_",), EBV, "eb_mul_lodah", lambda v: (r, g, kbn(v)),
-                        scalar_classes(rng, L, n, nsc), order=n, L=L)
+                        scalar_classes(rng, L, n, nsc) + order_edge(n, L), order=n, L=L)
         # fb_exp_monty
         fbsz = K["sizeof_fb_st"]
         fx = R.put((rng.getrandbits(K["RLC_FB_BITS"] - 3)).to_bytes(fbsz, "little"))
